@@ -151,11 +151,16 @@ def run_case(ctx, case):
         return
     g1 = torch.autograd.grad(val, params, allow_unused=True)
     g2 = torch.autograd.grad(val2, params2, allow_unused=True)
+    if h in ("norm", "dist", "readme") and abs(float(val2)) < 1e-6:
+        # a square root taken at (numerically) zero: the compressed path cancels to rounding noise of the operands' scale, whose
+        # square root is ~1e-8; compare the squares against the operands' scale, and take no gradient (sqrt is not differentiable at 0)
+        S = 1.0 + sum(float((x.detach() ** 2).sum()) for x in dl)
+        if float(val) ** 2 > 1e-12 * S * S:
+            ctx.oracle("values differ at a cancelling program: compressed %r dense %r" % (float(val), float(val2)), case)
+        ctx.count("skipped:sqrt at 0"); return
     if not close(val.detach().numpy(), val2.detach().numpy(), 1e-8)[0]:
         ctx.oracle("values differ: compressed %r dense %r" % (float(val), float(val2)), case)
         return
-    if h in ("norm", "dist", "readme") and abs(float(val2)) < 1e-6:
-        ctx.count("skipped:sqrt at 0"); return
     scale = max([float(g.abs().max()) for g in g2 if g is not None] + [1e-12])
     for k, (a, b) in enumerate(zip(g1, g2)):
         za = torch.zeros_like(params[k]) if a is None else a
